@@ -197,6 +197,19 @@ pub fn ohsl_sort_by_key<T, K: Ord, F: FnMut(&T) -> K>(v: &mut Vec<T>, f: F, Ghos
 /// types the ghost key closure of R15 by the vector's element type
 pub open spec fn ohsl_key_of<T>(v: &Vec<T>, f: spec_fn(T) -> int) -> spec_fn(T) -> int { f }
 
+/// R18: `v.iter().position(|x| *x == value)`.  Assumed (std contract of `Iterator::position` on a slice iterator
+/// with an equality predicate): the first index whose element equals `value`, or None when there is none.
+#[verifier::external_body]
+pub fn ohsl_position_eq<T: PartialEq>(v: &Vec<T>, value: &T) -> (r: Option<usize>)
+    ensures
+        match r {
+            Some(i) => i < v@.len() && v@[i as int].eq_spec(value) && forall|k: int| 0 <= k < i ==> !(#[trigger] v@[k]).eq_spec(value),
+            None => forall|k: int| 0 <= k < v@.len() ==> !(#[trigger] v@[k]).eq_spec(value),
+        },
+{
+    v.iter().position(|x| *x == *value)
+}
+
 /// R7: `for t in v.drain(..)` (v: &mut Vec) yields all elements in order and leaves v empty.
 #[verifier::external_body]
 pub fn vec_take<T>(v: &mut Vec<T>) -> (r: Vec<T>)
